@@ -42,6 +42,9 @@ let () =
        in
        let m = string_of_coq (Model.run_case (coq_of_string case)) in
        if eval_only then print_endline m
+       else if observed = "HUGE-RESULT" && String.length m > 1 lsl 20 then ()
+         (* the harness reports a result above 2^20 bytes as HUGE-RESULT instead of printing it:
+            the model agrees when its own rendering is that large *)
        else if m <> observed then begin
          incr bad;
          Printf.printf "MISMATCH %d\t%s\t%s\t%s\n" !total case observed m
